@@ -91,7 +91,7 @@ func newSimConn(rt *Runtime, id int, cc *ConnCase) *SimConn {
 }
 
 func (c *SimConn) rec(k, s string) {
-	if c.rt.frozen {
+	if c.rt.isFrozen() {
 		return
 	}
 	c.Events = append(c.Events, Event{Seq: c.rt.K.Seq(), K: k, S: s})
